@@ -81,6 +81,7 @@ fn main() -> Result<(), Box<dyn std::error::Error>> {
     let output_mode = match (args.output, args.format) {
         (Some(_output), Some(_format)) => Err(CantSupplyBoth),
         (Some(output), None) => parse_output(&output),
+        (None, Some(format)) if format.is_empty() => Err(InvalidFormatString),
         (None, Some(format)) => Ok(OutputMode::Format(format)),
         (None, None) => parse_output("legacy"),
     }?;
